@@ -406,3 +406,10 @@ vadd("V-part-encoder-filter", ["C01", "C02"],
      "the four source fragments the lemma was written from must still be present, otherwise the obligation is undecided",
      ["encode::write_residuals::best_partitions (text anchor)"], domain="bounded", bound="spec-level lemma; link to the code is textual (anchor) plus K-write_res_short_*",
      assumes=["std slice::rchunks yields ceil(len / size) chunks with the short one first in reverse order (std, not verified)"])
+
+for h in ["k_stream_sync_after_stray_ff_c6", "k_stream_sync_after_stray_ff_c1", "k_stream_sync_two_candidates_c5", "k_stream_sync_none_c2"]:
+    add("K-" + h[2:], ["C16"], D + h, tier="quick", bound="four concrete source layouts (garbage, stray 0xFF, two sync candidates, no sync) x concrete refill sizes; data is concrete because std's memchr over symbolic bytes runs CBMC out of memory",
+        functions=["decode::FlacStreamReader::read"],
+        contract="FlacStreamReader::read sync scan: a header is tried at exactly every 0xFF followed by 1111100x, in stream order, none skipped (also when a stray 0xFF precedes it or a refill splits the sync code); "
+                 "a source without a valid header yields an error, never a frame",
+        stubs=["stream::FrameHeader::read_subset (records the candidate, rejects it)"], timeout=300)
